@@ -35,6 +35,7 @@ func runC13(c *core.Ctx) {
 	ruleRangeIndexStep(c)
 	ruleIncrementBase(c)
 	ruleRectangularRanges(c)
+	ruleRangePositionIndex(c)
 	ruleAliasHygiene(c, [3]string{"C13-R11", "C13-R12", "C13-R13"}, cmapPkg)
 	ruleMethodsPure(c, "C13-R14", cmapPkg, 5, func(fn *core.Func, recv types.Type) bool {
 		if !(core.IsNamed(recv, cmapPkg, "File") || core.IsNamed(recv, cmapPkg, "ToUnicodeFile")) {
@@ -859,5 +860,86 @@ func ruleRectangularRanges(c *core.Ctx) {
 			})
 		}
 		o.Require(n >= 2, "expected at least two callers of rangeIndex, found %d", n)
+	})
+}
+
+// ruleRangePositionIndex (C13-R15): the value of the i-th code of a range is
+// a function of the range's first value and the position i of the code in
+// the rectangle (lookup computes it that way through rangeIndex).  Every
+// enumeration over codesInRange must use the position the iterator yields: a
+// running counter that is advanced only for codes the codec accepts falls
+// behind as soon as the range contains a rejected code.  And whether an entry
+// of a child CMap is present does not depend on its value: CID 0 is a
+// legitimate mapping that overrides the parent, so LookupCID never compares
+// a CID with zero to decide whether to consult the parent.
+func ruleRangePositionIndex(c *core.Ctx) {
+	c.Check("C13-R15", cmapPkg+".codesInRange/position", "every loop over codesInRange uses the position yielded by the iterator for the value it reports", func(o *core.Ob) {
+		pkg := c.Prog.Pkg(cmapPkg)
+		n := 0
+		for _, fn := range c.Prog.Funcs(pkg) {
+			info := fn.Info()
+			ast.Inspect(fn.Decl.Body, func(m ast.Node) bool {
+				rs, ok := m.(*ast.RangeStmt)
+				if !ok {
+					return true
+				}
+				if _, isCall := core.IsCallTo(info, rs.X, cmapPkg+".codesInRange"); !isCall {
+					return true
+				}
+				n++
+				o.Count(1)
+				o.At(fn.Site(rs, "enumerates a range"))
+				key, _ := rs.Key.(*ast.Ident)
+				if key == nil || key.Name == "_" {
+					o.FailAt(fn.Site(rs, ""), "%s: the position of the code in the range is discarded; the value reported for a code cannot be derived from it", c.Prog.Pos(rs.Pos()))
+					return true
+				}
+				idx := info.ObjectOf(key)
+				used := false
+				ast.Inspect(rs.Body, func(k ast.Node) bool {
+					if id, ok := k.(*ast.Ident); ok && info.ObjectOf(id) == idx {
+						used = true
+					}
+					return true
+				})
+				if !used {
+					o.FailAt(fn.Site(rs, ""), "%s: the position yielded by codesInRange is never used in the loop body", c.Prog.Pos(rs.Pos()))
+				}
+				return true
+			})
+		}
+		o.Require(n >= 3, "expected at least three loops over codesInRange, found %d", n)
+	})
+	c.Check("C13-R15", cmapPkg+".(*File).LookupCID/presence", "whether a child CMap has an entry for a code is not decided by comparing the CID with zero", func(o *core.Ob) {
+		pkg := c.Prog.Pkg(cmapPkg)
+		start := c.Prog.Func(cmapPkg, "(*File).LookupCID")
+		reach := map[*types.Func]bool{start.Obj: true}
+		fns := []*core.Func{start}
+		for i := 0; i < len(fns); i++ {
+			for _, cs := range core.CallsIn(fns[i].Info(), fns[i].Decl, true) {
+				if cs.Fn != nil && cs.Fn.Pkg() == pkg.Types && !reach[cs.Fn.Origin()] {
+					if f := c.Prog.FuncOf(cs.Fn); f != nil {
+						reach[cs.Fn.Origin()] = true
+						fns = append(fns, f)
+					}
+				}
+			}
+		}
+		for _, fn := range fns {
+			info := fn.Info()
+			o.Count(1)
+			ast.Inspect(fn.Decl.Body, func(m ast.Node) bool {
+				be, ok := m.(*ast.BinaryExpr)
+				if !ok || (be.Op != token.EQL && be.Op != token.NEQ) {
+					return true
+				}
+				for _, pair := range [][2]ast.Expr{{be.X, be.Y}, {be.Y, be.X}} {
+					if k, ok := core.IntConst(info, pair[1]); ok && k == 0 && core.IsNamed(info.TypeOf(pair[0]), cmapPkg, "CID") {
+						o.FailAt(fn.Site(be, ""), "%s: %s treats CID 0 as 'no entry': a child CMap that maps the code to CID 0 no longer overrides its parent", c.Prog.Pos(be.Pos()), c.Prog.Src(be))
+					}
+				}
+				return true
+			})
+		}
 	})
 }
